@@ -47,6 +47,9 @@ def _const_len(t):
     return None
 
 
+_ENVS = {}          # callee key -> (parameter substitution, call site) while a helper's result is being measured
+
+
 def _lf(ctx, t, depth=0):
     """(atoms, offset): the length is min(atoms) + offset"""
     if depth > 30:
@@ -70,7 +73,12 @@ def _lf(ctx, t, depth=0):
             if body is not None and ckey == bkey:
                 lps = [lp for lp in ctx.enclosing_loops(body, pbb) if cbb not in lp.blocks]
                 if len(lps) == 1 and lps[0].iter_term is not None and lps[0].driver_only_exit and ctx.every_iteration(body, lps[0], pbb):
-                    return _lf(ctx, lps[0].iter_term, depth + 1)
+                    it_ = lps[0].iter_term
+                    env_ = _ENVS.get(body.key)
+                    if env_:
+                        # the loop belongs to a helper reached through a call: its iterator in the caller's vocabulary
+                        it_ = ctx.eng.subst(it_, env_[0], env_[1])
+                    return _lf(ctx, it_, depth + 1)
         off = 0
         for e in evs:
             if e.tag != 'ev' or e[1] != 'call':
@@ -118,14 +126,27 @@ def _lf(ctx, t, depth=0):
         if name in ctx.facts.fn:
             inl = ctx.eng.inline(name, t[2], t[3])
             if inl is not t:
-                return _lf(ctx, inl, depth + 1)
+                from bpsa.terms import success_value
+                sv = success_value(inl[1] if inl.tag == 'mut' and not inl[2] else inl)
+                callee = ctx.facts.fn[name]
+                prev = _ENVS.get(callee.key)
+                _ENVS[callee.key] = ({('param', callee.key, i + 1): a for i, a in enumerate(t[2])}, tuple(t[3]) if t[3] else ())
+                try:
+                    return _lf(ctx, sv if sv is not None else inl, depth + 1)
+                finally:
+                    if prev is None:
+                        _ENVS.pop(callee.key, None)
+                    else:
+                        _ENVS[callee.key] = prev
         if name == 'std::vec::from_elem' and len(t[2]) == 2:
             return frozenset(['=' + canon(t[2][1])]), 0
         raise Unknown('call ' + name)
     if k in ('field', 'param', 'elem', 'elemat', 'upvar'):
         return frozenset(['len(%s)' % canon(t)]), 0
     if k == 'phi':
-        fs = {_lf(ctx, x, depth + 1) for x in t.args}
+        # the failure alternatives of a fallible helper are not lengths
+        alts = [x for x in t.args if not (x.tag == 'call' and x[1].split('::')[-1] == 'from_residual') and not (x.tag == 'adt' and x[1].split('::')[-1] in ('Err', 'None'))]
+        fs = {_lf(ctx, x, depth + 1) for x in (alts or t.args)}
         if len(fs) == 1:
             return fs.pop()
         raise Unknown('phi of different lengths')
